@@ -19,6 +19,11 @@ statement itself raises after its body completed.
 The executor probes every getter (and the behavioural probes of the involved
 state keys) at every slot of every block, after every exceptional exit of every
 `with`, compares with the model, and finally with the initial state.
+
+Besides the getters and one behavioural probe per setting there is, per
+setting, a *consumer matrix* (section "Consumer matrices"): every operation
+documented to obey the setting, over the sibling classes and entry points.
+Matrices are expensive and evaluated only by drv_setting_consumers.
 """
 import contextlib
 import itertools
@@ -52,14 +57,35 @@ class Key:
 
 class Probe:
   def __init__(self, name, src, expect, behavioural=False, template=False,
-               expensive=False):
+               expensive=False, table=None, evaluator='ok_', flags='None'):
     self.name = name
     self.expensive = expensive    # only probed right after enter / exception exit / at the end
+    # A *consumer matrix* (table is not None): `table` names a list of (consumer
+    # name, fn(flag)) in the consumers prelude; the probe evaluates every
+    # consumer for every object-level flag value in `flags` (source of an
+    # argument list, or fn(model) -> source) and `expect` returns {consumer
+    # name: expected tuple}.  A mismatch is reported under an id of its own,
+    # '<probe>[<consumer>]/<phase>'.  Matrices are expensive: they are only
+    # evaluated by the drivers that ask for them (Ctx.heavy).
+    self.table, self.evaluator, self.flags = table, evaluator, flags
+    self.heavy = table is not None
+    if self.heavy:
+      src, behavioural, template, expensive = '<matrix>', True, False, True
+      self.expensive = True
     self.src = src
     self.expect = expect          # fn(full model dict) -> value | SKIP
     self.behavioural = behavioural
     self.template = src if template else None   # '%s' <- repr(model state of the key)
-    self.code = None if template else compile(src, f'<probe {name}>', 'eval')
+    self.code = None if (template or self.heavy) else compile(src, f'<probe {name}>', 'eval')
+
+  def _flags(self, model):
+    return self.flags(model) if callable(self.flags) else self.flags
+
+  def matrix_src(self, model):
+    return f'mx_({self.table}, {self.evaluator}, {self._flags(model)})'
+
+  def consumer_src(self, model, consumer):
+    return f'mx1_({self.table}, {consumer!r}, {self.evaluator}, {self._flags(model)})'
 
 
 class Arg:
@@ -779,6 +805,471 @@ INIT_MODEL = {k: KEYS[k].init for k in KEY_ORDER}
 
 
 # ===========================================================================
+# Consumer matrices: every place of the library that *reads* a scoped setting.
+#
+# The getters show that a scope installs and restores its setting; whether the
+# setting is "effective inside the block" is a statement about every operation
+# documented to obey it.  One table per setting lists those operations over
+# the sibling container kinds (Object / Functor / typed Dict / typed List) and
+# entry points (construction, late binding of a value spec, rebind, accessor
+# writes, the list/dict mutators, from_json, clone/copy, str/repr), each tried
+# for both values of the object-level flag the scope overrides.  Oracles:
+#   partial    docstring of pg.allow_partial: True allows partial values, False refuses them
+#              "even if individual objects allow so", None honours the object-level flag;
+#   typecheck  docstring of pg.enable_type_check: a wrongly typed value is refused iff on;
+#   notify     docstring of pg.notify_on_change: a change is announced iff on;
+#   sealed     docstring of pg.as_sealed: True refuses every change, False allows it even on
+#              sealed values, None honours the object-level state;
+#   writable   docstring of pg.allow_writable_accessors: same for writes through accessors;
+#   origin     docstrings of pg.track_origin / pg.symbolic.Origin: construction, cloning/copying
+#              and functor returns record an origin (documented tag, source, stack) iff on;
+#   str/repr   "setting the default format kwargs for __str__/__repr__": str(v) / repr(v) is
+#              pg.format(v, <class defaults overlaid with the kwargs in scope>).
+#   coding.permission  docstring: "the outermost permission will be used"; one snippet per
+#              permission flag through evaluate / run / evaluate(permission=...);
+#   coding.context     "inject symbols for code execution": visible to evaluate / run, and code
+#              that assigns does not change the scope;
+#   dynamic_evaluate   every hyper primitive factory is routed to the evaluate function in scope.
+# "The <flag> state of individual objects will remain intact" (same docstrings): the
+# `after-use` rows use values that existed before the scope and look at their own flag.
+# ===========================================================================
+
+CONSUMERS = '''import copy
+MV_ = pg.MISSING_VALUE
+def call_(f, fl): return f(fl)
+def mx1_(table, name, ev, *flags):
+  f = dict(table)[name]
+  try: return tuple(ev(f, fl) for fl in flags)
+  except Exception as e: return f'{type(e).__name__}: {e}'
+def mx_(table, ev, *flags): return {n: mx1_(table, n, ev, *flags) for n, _ in table}
+def is_(a, b):
+  if a is not b: raise AssertionError(f'{a!r} is not {b!r}')
+KD_ = pg.typing.Dict([('a', pg.typing.Int()), ('b', pg.typing.Int())])
+KL_ = pg.typing.List(KD_)
+KI_ = pg.typing.List(pg.typing.Int())
+class KA_(pg.Object):
+  x: int
+  y: int
+@pg.members([('d', pg.typing.Dict([('a', pg.typing.Int()), ('b', pg.typing.Int())]))])
+class KND_(pg.Object): pass
+@pg.members([('l', pg.typing.List(pg.typing.Dict([('a', pg.typing.Int()), ('b', pg.typing.Int())])))])
+class KNL_(pg.Object): pass
+class KS_(pg.Object):
+  allow_symbolic_assignment = True
+  x: int = 0
+class KW_(pg.Object):
+  x: int = 0
+@pg.functor([('a', pg.typing.Int()), ('b', pg.typing.Int())])
+def kf_(a=1, b=2): return 0
+@pg.functor([('a', pg.typing.Int()), ('args', pg.typing.List(pg.typing.Int()))])
+def kv_(a=1, *args): return 0
+@pg.functor([('a', pg.typing.Int()), ('kw', pg.typing.Dict([(pg.typing.StrKey(), pg.typing.Int())]))])
+def kk_(a=1, **kw): return 0
+@pg.functor()
+def ko_(): return pg.Dict(x=1)
+with pg.auto_call_functors(False): kf0_ = kf_(); kv0_ = kv_(); kk0_ = kk_(); ko0_ = ko_()
+def mk_(c, fl, *a, **k): return (c.partial if fl else c)(*a, **k)
+
+# --- partial (flag: object-level allow_partial) -----------------------------
+def pd_(fl=False): return mk_(pg.Dict, fl, a=1, b=2, value_spec=KD_)
+def pl_(fl=False): return mk_(pg.List, fl, [{'a': 1, 'b': 2}], value_spec=KL_)
+# values that exist before any scope is entered: used inside, their own flag stays what it was
+KPX_ = {fl: (pd_(fl), pl_(fl), mk_(KA_, fl, x=1, y=2)) for fl in (False, True)}
+def pfi_(fl):
+  d, l, o = KPX_[fl]
+  for v, u in ((d, {'a': 3}), (l, {'[0].a': 3}), (o, {'x': 3})):
+    try: v.rebind(u, raise_on_no_change=False); v.rebind({k: MV_ for k in u}); v.rebind(u)
+    except ValueError: pass
+  for v in (d, l, l[0], o): is_(v.allow_partial, fl)
+PARTIAL_ = [
+  ('object.init:missing-field', lambda fl: mk_(KA_, fl, x=1)),
+  ('object.init:typed-dict-field-missing-key', lambda fl: mk_(KND_, fl, d={'a': 1})),
+  ('object.init:typed-list-field-partial-element', lambda fl: mk_(KNL_, fl, l=[{'a': 1}])),
+  ('object.rebind:field-to-missing', lambda fl: mk_(KA_, fl, x=1, y=2).rebind(x=MV_)),
+  ('object.rebind:dict-field-to-partial', lambda fl: mk_(KND_, fl, d={'a': 1, 'b': 2}).rebind(d={'a': 1})),
+  ('object.rebind:nested-key-to-missing', lambda fl: mk_(KND_, fl, d={'a': 1, 'b': 2}).rebind({'d.a': MV_})),
+  ('object.from_json:missing-field', lambda fl: pg.from_json({'_type': KA_.__type_name__, 'x': 1}, allow_partial=fl)),
+  ('dict.init:missing-key', lambda fl: mk_(pg.Dict, fl, a=1, value_spec=KD_)),
+  ('dict.use_value_spec:missing-key', lambda fl: mk_(pg.Dict, fl, a=1).use_value_spec(KD_, allow_partial=fl)),
+  ('dict.rebind:key-to-missing', lambda fl: pd_(fl).rebind(a=MV_)),
+  ('dict.setitem:key-to-missing', lambda fl: pd_(fl).__setitem__('a', MV_)),
+  ('dict.setattr:key-to-missing', lambda fl: setattr(pd_(fl), 'a', MV_)),
+  ('dict.delitem:required-key', lambda fl: pd_(fl).__delitem__('a')),
+  ('dict.pop:required-key', lambda fl: pd_(fl).pop('a')),
+  ('dict.clear:required-keys', lambda fl: pd_(fl).clear()),
+  ('dict.update:key-to-missing', lambda fl: pd_(fl).update({'a': MV_})),
+  ('list.init:partial-element', lambda fl: mk_(pg.List, fl, [{'a': 1}], value_spec=KL_)),
+  ('list.use_value_spec:partial-element', lambda fl: mk_(pg.List, fl, [{'a': 1}]).use_value_spec(KL_, allow_partial=fl)),
+  ('list.append:partial-element', lambda fl: pl_(fl).append({'a': 1})),
+  ('list.insert:partial-element', lambda fl: pl_(fl).insert(0, {'a': 1})),
+  ('list.extend:partial-element', lambda fl: pl_(fl).extend([{'a': 1}])),
+  ('list.iadd:partial-element', lambda fl: pl_(fl).__iadd__([{'a': 1}])),
+  ('list.setitem:partial-element', lambda fl: pl_(fl).__setitem__(0, {'a': 1})),
+  ('list.setitem-slice:partial-element', lambda fl: pl_(fl).__setitem__(slice(0, 1), [{'a': 1}])),
+  ('list.rebind:partial-element', lambda fl: pl_(fl).rebind({0: {'a': 1}})),
+  ('list.rebind:element-key-to-missing', lambda fl: pl_(fl).rebind({'[0].a': MV_})),
+  ('list.element-rebind:key-to-missing', lambda fl: pl_(fl)[0].rebind(a=MV_)),
+]
+PARTIAL_INTACT_ = [('object-level-flag-intact', pfi_)]
+
+# --- typecheck (no object-level flag) ----------------------------------------
+def il_(): return pg.List([1, 2], value_spec=KI_)
+TYPECHECK_ = [
+  ('object.init:wrong-type', lambda _: KA_(x='s', y=2)),
+  ('object.init:wrong-type-in-dict-field', lambda _: KND_(d={'a': 's', 'b': 2})),
+  ('object.init:wrong-type-in-list-field', lambda _: KNL_(l=[{'a': 's', 'b': 2}])),
+  ('object.rebind:wrong-type', lambda _: KA_(x=1, y=2).rebind(x='s')),
+  ('object.setattr:wrong-type', lambda _: setattr(KS_(x=0), 'x', 's')),
+  ('object.from_json:wrong-type', lambda _: pg.from_json({'_type': KA_.__type_name__, 'x': 's', 'y': 2})),
+  ('dict.init:wrong-type', lambda _: pg.Dict(a='s', b=2, value_spec=KD_)),
+  ('dict.init:undeclared-key', lambda _: pg.Dict(a=1, b=2, c=3, value_spec=KD_)),
+  ('dict.use_value_spec:wrong-type', lambda _: pg.Dict(a='s', b=2).use_value_spec(KD_)),
+  ('dict.rebind:wrong-type', lambda _: pd_().rebind(a='s')),
+  ('dict.setitem:wrong-type', lambda _: pd_().__setitem__('a', 's')),
+  ('dict.setattr:wrong-type', lambda _: setattr(pd_(), 'a', 's')),
+  ('dict.update:wrong-type', lambda _: pd_().update({'a': 's'})),
+  ('list.init:wrong-type', lambda _: pg.List(['s'], value_spec=KI_)),
+  ('list.use_value_spec:wrong-type', lambda _: pg.List(['s']).use_value_spec(KI_)),
+  ('list.append:wrong-type', lambda _: il_().append('s')),
+  ('list.insert:wrong-type', lambda _: il_().insert(0, 's')),
+  ('list.extend:wrong-type', lambda _: il_().extend(['s'])),
+  ('list.iadd:wrong-type', lambda _: il_().__iadd__(['s'])),
+  ('list.setitem:wrong-type', lambda _: il_().__setitem__(0, 's')),
+  ('list.setitem-slice:wrong-type', lambda _: il_().__setitem__(slice(0, 1), ['s'])),
+  ('list.rebind:wrong-type', lambda _: il_().rebind({0: 's'})),
+  ('functor.call:wrong-type-positional', lambda _: kf0_('s')),
+  ('functor.call:wrong-type-keyword', lambda _: kf0_(b='s')),
+  ('functor.call:wrong-type-varargs', lambda _: kv0_(1, 's')),
+  ('functor.call:wrong-type-varkw', lambda _: kk0_(z='s')),
+  ('functor.init:wrong-type', lambda _: kf_.partial('s')),
+  ('functor.rebind:wrong-type', lambda _: kf_.partial().rebind(a='s')),
+]
+
+# --- notify: is the change announced? ----------------------------------------
+def nd_(f):
+  got = []; d = pg.Dict(a=1, b=2, onchange_callback=lambda u: got.append(1)); f(d); return len(got) > 0
+def nl_(f):
+  got = []; l = pg.List([3, 1, 2], onchange_callback=lambda u: got.append(1)); f(l); return len(got) > 0
+class KN_(pg.Object):
+  allow_symbolic_assignment = True
+  x: int = 0
+  z: pg.typing.Dict([('k', pg.typing.Int(default=0))]) = pg.Dict(k=0)
+  w: pg.typing.List(pg.typing.Int()) = pg.List([1])
+  def _on_change(self, u): KN_.c[threading.get_ident()] = KN_.c.get(threading.get_ident(), 0) + 1
+KN_.c = {}
+def no_(f):
+  o = KN_(x=0, z=dict(k=0), w=[1]); i = threading.get_ident(); c = KN_.c.get(i, 0); f(o); return KN_.c.get(i, 0) > c
+NOTIFY_ = [
+  ('object.rebind', lambda _: no_(lambda o: o.rebind(x=1))),
+  ('object.setattr', lambda _: no_(lambda o: setattr(o, 'x', 1))),
+  ('object.nested-dict-setitem', lambda _: no_(lambda o: o.z.__setitem__('k', 1))),
+  ('object.nested-dict-rebind', lambda _: no_(lambda o: o.z.rebind(k=1))),
+  ('object.nested-list-append', lambda _: no_(lambda o: o.w.append(2))),
+  ('dict.rebind', lambda _: nd_(lambda d: d.rebind(a=2))),
+  ('dict.setitem', lambda _: nd_(lambda d: d.__setitem__('a', 2))),
+  ('dict.setitem-new-key', lambda _: nd_(lambda d: d.__setitem__('c', 2))),
+  ('dict.setattr', lambda _: nd_(lambda d: setattr(d, 'a', 2))),
+  ('dict.delitem', lambda _: nd_(lambda d: d.__delitem__('a'))),
+  ('dict.delattr', lambda _: nd_(lambda d: delattr(d, 'a'))),
+  ('dict.pop', lambda _: nd_(lambda d: d.pop('a'))),
+  ('dict.popitem', lambda _: nd_(lambda d: d.popitem())),
+  ('dict.clear', lambda _: nd_(lambda d: d.clear())),
+  ('dict.update', lambda _: nd_(lambda d: d.update({'a': 2}))),
+  ('dict.setdefault', lambda _: nd_(lambda d: d.setdefault('c', 2))),
+  ('list.rebind', lambda _: nl_(lambda l: l.rebind({0: 9}))),
+  ('list.setitem', lambda _: nl_(lambda l: l.__setitem__(0, 9))),
+  ('list.setitem-slice', lambda _: nl_(lambda l: l.__setitem__(slice(0, 1), [9]))),
+  ('list.delitem', lambda _: nl_(lambda l: l.__delitem__(0))),
+  ('list.delitem-slice', lambda _: nl_(lambda l: l.__delitem__(slice(0, 2)))),
+  ('list.insert', lambda _: nl_(lambda l: l.insert(0, 9))),
+  ('list.append', lambda _: nl_(lambda l: l.append(9))),
+  ('list.extend', lambda _: nl_(lambda l: l.extend([9]))),
+  ('list.iadd', lambda _: nl_(lambda l: l.__iadd__([9]))),
+  ('list.imul', lambda _: nl_(lambda l: l.__imul__(2))),
+  ('list.pop', lambda _: nl_(lambda l: l.pop())),
+  ('list.remove', lambda _: nl_(lambda l: l.remove(1))),
+  ('list.clear', lambda _: nl_(lambda l: l.clear())),
+  ('list.sort', lambda _: nl_(lambda l: l.sort())),
+  ('list.reverse', lambda _: nl_(lambda l: l.reverse())),
+]
+
+# --- sealed (flag: object-level sealed state) ---------------------------------
+def sd_(s): d = pg.Dict(a=1, b=2); return d.seal() if s else d
+def sl_(s): l = pg.List([3, 1, 2]); return l.seal() if s else l
+def so_(s): o = KS_(x=0); return o.seal() if s else o
+def sf_(s): f = kf_.partial(a=1, b=2); return f.seal() if s else f
+KSX_ = {s: (sd_(s), sl_(s), so_(s), sf_(s)) for s in (False, True)}
+def sfi_(s):
+  for v in KSX_[s]:
+    try: v.rebind({0: 9} if isinstance(v, list) else {'a': 9} if isinstance(v, (dict, kf_)) else {'x': 9}, raise_on_no_change=False)
+    except pg.WritePermissionError: pass
+    is_(v.is_sealed, s)
+SEALED_ = [
+  ('object.rebind', lambda s: so_(s).rebind(x=1)),
+  ('object.setattr', lambda s: setattr(so_(s), 'x', 1)),
+  ('functor.rebind', lambda s: sf_(s).rebind(a=2)),
+  ('functor.setattr', lambda s: setattr(sf_(s), 'a', 2)),
+  ('functor.delattr', lambda s: delattr(sf_(s), 'a')),
+  ('dict.rebind', lambda s: sd_(s).rebind(a=2)),
+  ('dict.setitem', lambda s: sd_(s).__setitem__('a', 2)),
+  ('dict.setattr', lambda s: setattr(sd_(s), 'a', 2)),
+  ('dict.delitem', lambda s: sd_(s).__delitem__('a')),
+  ('dict.delattr', lambda s: delattr(sd_(s), 'a')),
+  ('dict.pop', lambda s: sd_(s).pop('a')),
+  ('dict.popitem', lambda s: sd_(s).popitem()),
+  ('dict.clear', lambda s: sd_(s).clear()),
+  ('dict.update', lambda s: sd_(s).update({'a': 2})),
+  ('dict.setdefault', lambda s: sd_(s).setdefault('c', 2)),
+  ('list.rebind', lambda s: sl_(s).rebind({0: 9})),
+  ('list.setitem', lambda s: sl_(s).__setitem__(0, 9)),
+  ('list.setitem-slice', lambda s: sl_(s).__setitem__(slice(0, 1), [9])),
+  ('list.delitem', lambda s: sl_(s).__delitem__(0)),
+  ('list.insert', lambda s: sl_(s).insert(0, 9)),
+  ('list.append', lambda s: sl_(s).append(9)),
+  ('list.extend', lambda s: sl_(s).extend([9])),
+  ('list.iadd', lambda s: sl_(s).__iadd__([9])),
+  ('list.imul', lambda s: sl_(s).__imul__(2)),
+  ('list.pop', lambda s: sl_(s).pop()),
+  ('list.remove', lambda s: sl_(s).remove(1)),
+  ('list.clear', lambda s: sl_(s).clear()),
+  ('list.sort', lambda s: sl_(s).sort()),
+  ('list.reverse', lambda s: sl_(s).reverse()),
+]
+SEALED_INTACT_ = [('object-level-flag-intact', sfi_)]
+
+# --- writable accessors (flag: object-level accessor_writable is False) -------
+def wd_(nw): return pg.Dict(a=1, b=2, accessor_writable=not nw)
+def wl_(nw): return pg.List([3, 1, 2], accessor_writable=not nw)
+def wo_(nw): return KW_(x=0) if nw else KS_(x=0)
+def wf_(nw): return kf_.partial(a=1, b=2).set_accessor_writable(not nw)
+KWX_ = {nw: (wd_(nw), wl_(nw), wf_(nw)) for nw in (False, True)}
+def wfi_(nw):
+  for v in KWX_[nw]:
+    try:
+      if isinstance(v, list): v[0] = 9
+      else: v.a = 9
+    except pg.WritePermissionError: pass
+    is_(v.accessor_writable, not nw)
+WRITABLE_ = [
+  ('object.setattr', lambda nw: setattr(wo_(nw), 'x', 1)),
+  ('functor.setattr', lambda nw: setattr(wf_(nw), 'a', 2)),
+  ('functor.delattr', lambda nw: delattr(wf_(nw), 'a')),
+  ('dict.setitem', lambda nw: wd_(nw).__setitem__('a', 2)),
+  ('dict.setattr', lambda nw: setattr(wd_(nw), 'a', 2)),
+  ('dict.delitem', lambda nw: wd_(nw).__delitem__('a')),
+  ('dict.delattr', lambda nw: delattr(wd_(nw), 'a')),
+  ('list.setitem', lambda nw: wl_(nw).__setitem__(0, 9)),
+  ('list.setitem-slice', lambda nw: wl_(nw).__setitem__(slice(0, 1), [9])),
+  ('list.delitem', lambda nw: wl_(nw).__delitem__(0)),
+]
+WRITABLE_INTACT_ = [('object-level-flag-intact', wfi_)]
+
+# --- origin ---------------------------------------------------------------------
+OD_ = pg.Dict(x=1); OL_ = pg.List([1]); OO_ = KS_(x=0)
+def og_(v, src=None):
+  o = v.sym_origin
+  return None if o is None else (o.tag, o.source is src, o.stack is not None)
+ORIGIN_ = [
+  ('dict.init', lambda _: og_(pg.Dict())),
+  ('list.init', lambda _: og_(pg.List())),
+  ('object.init', lambda _: og_(KS_(x=0))),
+  ('dict.clone', lambda _: og_(OD_.clone(), OD_)),
+  ('dict.clone-deep', lambda _: og_(OD_.clone(deep=True), OD_)),
+  ('dict.copy', lambda _: og_(copy.copy(OD_), OD_)),
+  ('dict.deepcopy', lambda _: og_(copy.deepcopy(OD_), OD_)),
+  ('list.clone', lambda _: og_(OL_.clone(), OL_)),
+  ('list.clone-deep', lambda _: og_(OL_.clone(deep=True), OL_)),
+  ('object.clone', lambda _: og_(OO_.clone(), OO_)),
+  ('object.clone-deep', lambda _: og_(OO_.clone(deep=True), OO_)),
+  ('object.clone-override', lambda _: og_(OO_.clone(override={'x': 2}), OO_)),
+  ('functor.return', lambda _: og_(ko0_(), ko0_)),
+]
+
+# --- str / repr format kwargs (flag: the kwargs in scope) ------------------------
+class KFA_(pg.Object):
+  x: int = 1
+  y: pg.typing.Dict([('z', pg.typing.Str(default='a'))]) = pg.Dict(z='a')
+  w: pg.typing.List(pg.typing.Int()) = pg.List([1, 2])
+FV_ = [
+  ('dict', pg.Dict(x=1, y=pg.Dict(z='a'))),
+  ('list', pg.List([1, pg.Dict(z='a'), [2]])),
+  ('object', KFA_(x=2)),
+  ('functor', kf_.partial(b=3)),
+  ('ref', pg.Ref(KFA_())),
+  ('value-spec', pg.typing.Dict([('a', pg.typing.Int(default=1)), ('b', pg.typing.List(pg.typing.Str()))])),
+  ('field', pg.typing.Field('a', pg.typing.Int(default=1), 'doc')),
+  ('schema', KFA_.__schema__),
+  ('dna', pg.DNA([1, (0, 2)])),
+  ('dna-spec', pg.geno.space([pg.geno.oneof([pg.geno.constant(), pg.geno.constant()], location='x'), pg.geno.floatv(0., 1., location='y')])),
+  ('diff', pg.diff(pg.Dict(x=1), pg.Dict(x=2))),
+  ('key-path', pg.KeyPath.parse('a.b[0]')),
+  ('html', pg.Html('<b>x</b>')),
+]
+def fm_(which, v):
+  f = str if which == 'str' else repr
+  return lambda kw: f(v) == pg.format(v, **dict(getattr(type(v), f'__{which}_format_kwargs__'), **kw))
+STRFMT_ = [(n, fm_('str', v)) for n, v in FV_]
+REPRFMT_ = [(n, fm_('repr', v)) for n, v in FV_]
+
+# --- code permission: one snippet per permission flag x entry point ---------------
+KP_ = pg.coding.CodePermission
+SNIPPETS_ = [
+  ('assign', KP_.ASSIGN, 'q_ = 1'), ('condition', KP_.CONDITION, 'if 1: 2'),
+  ('loop', KP_.LOOP, 'for i_ in (1, 2): 3'), ('call', KP_.CALL, 'len([])'),
+  ('exception', KP_.EXCEPTION, 'try:\\n  1\\nexcept Exception:\\n  2'),
+  ('class-definition', KP_.CLASS_DEFINITION, 'class A_: pass'),
+  ('function-definition', KP_.FUNCTION_DEFINITION, 'lambda: 1'), ('import', KP_.IMPORT, 'import os'),
+]
+def allowed_(f, *a, **k):
+  try: f(*a, **k); return True
+  except pg.coding.CodeError as e:
+    if isinstance(e.cause, SyntaxError): return False
+    raise
+CODEPERM_ = []
+for n_, fl_, c_ in SNIPPETS_:
+  CODEPERM_ += [
+    ('evaluate:' + n_, lambda _, c=c_: allowed_(pg.coding.evaluate, c)),
+    ('run:' + n_, lambda _, c=c_: allowed_(pg.coding.run, c, sandbox=False)),
+    ('evaluate-with-permission-ALL:' + n_, lambda _, c=c_: allowed_(pg.coding.evaluate, c, permission=KP_.ALL)),
+    ('evaluate-with-own-permission:' + n_, lambda _, c=c_, p=fl_: allowed_(pg.coding.evaluate, c, permission=p)),
+  ]
+
+# --- code context -------------------------------------------------------------------
+def sym_(f, name, **k):
+  try: return f(name, **k)
+  except pg.coding.CodeError as e: return type(e.cause).__name__
+def keeps_(f, code, **k):
+  before = pg.coding.get_context(); f(code, **k); return pg.coding.get_context() == before
+CODECTX_ = [
+  ('evaluate:x', lambda _: sym_(pg.coding.evaluate, 'x')),
+  ('evaluate:y', lambda _: sym_(pg.coding.evaluate, 'y')),
+  ('run:x', lambda _: sym_(pg.coding.run, 'x', sandbox=False)),
+  ('run:y', lambda _: sym_(pg.coding.run, 'y', sandbox=False)),
+  ('evaluate:assignment-stays-out-of-scope', lambda _: keeps_(pg.coding.evaluate, 'x = 99; z_ = 98')),
+  ('run:assignment-stays-out-of-scope', lambda _: keeps_(pg.coding.run, 'x = 99; z_ = 98', sandbox=False)),
+  ('evaluate:global_vars-stay-out-of-scope', lambda _: keeps_(pg.coding.evaluate, '1', global_vars={'x': 97, 'z_': 96})),
+]
+
+# --- dynamic evaluation: every way of creating a hyper primitive --------------------
+def hv_(f):
+  v = f()
+  if isinstance(v, tuple) and v and v[0] in ('f1', 'f2'): return v
+  return type(v).__name__ if isinstance(v, pg.hyper.HyperPrimitive) else 'value'
+DYNEVAL_ = [
+  ('oneof', lambda _: hv_(lambda: pg.oneof([1, 2]))),
+  ('oneof-named', lambda _: hv_(lambda: pg.oneof([1, 2], name='n'))),
+  ('manyof', lambda _: hv_(lambda: pg.manyof(2, [1, 2, 3]))),
+  ('permutate', lambda _: hv_(lambda: pg.permutate([1, 2]))),
+  ('floatv', lambda _: hv_(lambda: pg.floatv(0.0, 1.0))),
+  ('oneof-as-dict-value', lambda _: hv_(lambda: pg.Dict(x=pg.oneof([1, 2])).x)),
+  ('oneof-as-candidate', lambda _: hv_(lambda: pg.oneof([pg.oneof([1, 2]), 3]))),
+]
+'''
+
+
+_ROWS = {}
+
+
+def _rows(table):
+  """Consumer names of a table of the consumers prelude."""
+  if table not in _ROWS:
+    _ROWS[table] = [n for n, _ in namespace()[table]]
+  return _ROWS[table]
+
+
+_FN_ROWS = ('functor.rebind', 'functor.setattr', 'functor.delattr', 'functor.init:wrong-type',
+            'functor.rebind:wrong-type')   # built with F.partial(): not under auto_call_functors(True)
+
+
+def _matrix_expect(table, value, skip=lambda m: False, per_row=False):
+  """expect-function of a matrix: every consumer of `table` -> value(model[, consumer])."""
+  def expect(m):
+    if skip(m):
+      return SKIP
+    v = None if per_row else value(m)
+    return {r: (value(m, r) if per_row else v) for r in _rows(table)
+            if not (m['autocall'] and r in _FN_ROWS)}
+  return expect
+
+
+def _consumer_probe(key, table, value, skip=lambda m: False, flags='None', evaluator='ok_',
+                    suffix='consumer', per_row=False):
+  KEYS[key].probes.append(Probe(
+      f'{MGRS_OF_KEY[key]}.{suffix}', None, _matrix_expect(table, value, skip, per_row),
+      table=table, evaluator=evaluator, flags=flags))
+
+
+MGRS_OF_KEY = {'partial': 'allow_partial', 'typecheck': 'enable_type_check',
+               'notify': 'notify_on_change', 'sealed': 'as_sealed',
+               'writable': 'allow_writable_accessors', 'origin': 'track_origin',
+               'strfmt': 'str_format', 'reprfmt': 'repr_format',
+               'codeperm': 'coding.permission', 'codectx': 'coding.context',
+               'dyneval': 'dynamic_evaluate'}
+_PERM_BIT = {'assign': 1, 'condition': 2, 'loop': 4, 'call': 8, 'exception': 16,
+             'class-definition': 32, 'function-definition': 64, 'import': 128}
+
+
+def _origin_row(m, row):
+  # "Built-in tags are '__init__', 'clone', 'deepclone' and 'return'" (pg.symbolic.Origin); the
+  # source is the value cloned / the functor called; "the stack information can be obtained"
+  if not m['origin']:
+    return (None,)
+  op = row.split('.')[1]
+  tag = {'init': '__init__', 'return': 'return', 'clone-deep': 'deepclone',
+         'deepcopy': 'deepclone'}.get(op, 'clone')
+  return ((tag, True, True),)
+
+
+def _perm_allowed(m, row):
+  # the permission in scope decides, also when the call asks for more ("the outermost
+  # permission will be used ... allows users to control permission at the top level")
+  return (m['codeperm'] is None or bool(m['codeperm'] & _PERM_BIT[row.split(':')[1]]),)
+
+
+def _ctx_row(m, row):
+  name = row.split(':')[1]
+  return (m['codectx'].get(name, 'NameError') if name in 'xy' else True,)
+
+
+def _dyn_row(m, row):
+  kind = {'oneof': 'OneOf', 'manyof': 'ManyOf', 'permutate': 'ManyOf', 'floatv': 'Float'}[
+      row.split('-')[0]]
+  mode = m['dyneval']
+  return (kind if mode is None else 'value' if mode == 'collect' else (mode, kind),)
+
+
+_consumer_probe('partial', 'PARTIAL_',
+                lambda m: _tri(m['partial'], (False, True), (True, True), (False, False)),
+                lambda m: not m['typecheck'] or _blocked(m), flags='False, True')
+_consumer_probe('partial', 'PARTIAL_INTACT_', lambda m: (True, True),
+                lambda m: _blocked(m), flags='False, True', suffix='after-use')
+_consumer_probe('typecheck', 'TYPECHECK_', lambda m: (not m['typecheck'],), _blocked)
+_consumer_probe('notify', 'NOTIFY_', lambda m: (m['notify'],), _blocked, evaluator='call_')
+_consumer_probe('sealed', 'SEALED_',
+                lambda m: _tri(m['sealed'], (True, False), (False, False), (True, True)),
+                lambda m: m['writable'] is False, flags='False, True')
+_consumer_probe('sealed', 'SEALED_INTACT_', lambda m: (True, True),
+                lambda m: m['writable'] is False, flags='False, True', suffix='after-use')
+_consumer_probe('writable', 'WRITABLE_',
+                lambda m: _tri(m['writable'], (True, False), (True, True), (False, False)),
+                lambda m: m['sealed'] is True, flags='False, True')
+_consumer_probe('writable', 'WRITABLE_INTACT_', lambda m: (True, True),
+                lambda m: m['sealed'] is True, flags='False, True', suffix='after-use')
+_consumer_probe('origin', 'ORIGIN_', _origin_row, _blocked, evaluator='call_', per_row=True)
+# Only while format kwargs are in scope: how a value is rendered without any
+# scope is not the business of this property.
+_consumer_probe('strfmt', 'STRFMT_', lambda m: (True,), lambda m: not m['strfmt'],
+                flags=lambda m: repr(m['strfmt']), evaluator='call_')
+_consumer_probe('reprfmt', 'REPRFMT_', lambda m: (True,), lambda m: not m['reprfmt'],
+                flags=lambda m: repr(m['reprfmt']), evaluator='call_')
+_consumer_probe('codeperm', 'CODEPERM_', _perm_allowed, evaluator='call_', per_row=True)
+_consumer_probe('codectx', 'CODECTX_', _ctx_row, evaluator='call_', per_row=True)
+_consumer_probe('dyneval', 'DYNEVAL_', _dyn_row,
+                lambda m: not m['typecheck'] or _blocked(m), evaluator='call_', per_row=True)
+HEAVY_KEYS = [k for k in KEY_ORDER if any(p.heavy for p in KEYS[k].probes)]
+
+
+# ===========================================================================
 # Executor
 # ===========================================================================
 
@@ -799,6 +1290,7 @@ def namespace():
         if p and p not in seen:
           seen.add(p)
           exec(p, ns)  # pylint: disable=exec-used
+      exec(CONSUMERS, ns)  # pylint: disable=exec-used
       for m in MGRS.values():
         m.yconv_fn = eval(m.yconv, ns)  # pylint: disable=eval-used
       _NS = ns
@@ -844,18 +1336,22 @@ def _is_ours(e, ns):
 
 
 class Failure:
-  def __init__(self, case_id, loc, message, assert_src, keys):
+  def __init__(self, case_id, loc, message, assert_src, keys, heavy=False):
     self.case_id, self.loc, self.message = case_id, loc, message
-    self.assert_src, self.keys = assert_src, keys
+    self.assert_src, self.keys, self.heavy = assert_src, keys, heavy
 
 
 class Ctx:
   """Execution context of one program."""
 
-  def __init__(self, ns, involved, all_behavioural=False):
+  def __init__(self, ns, involved, all_behavioural=False, heavy=False):
     self.ns = ns
     self.involved = involved          # key names whose behavioural probes run
     self.all_behavioural = all_behavioural
+    # consumer matrices of the involved keys: False (never) | True (first slot of every block,
+    # after every exceptional exit, at the end) | 'touched' (same, but not while the key has not
+    # been entered yet, and not at the end) | 'leaf' (first slot of the blocks without inner scopes)
+    self.heavy = heavy
     self.failures = []
     self.checks = 0
     self.captures = []                # (index, wrapper, captured ctx state)
@@ -875,8 +1371,26 @@ class Ctx:
       return f'after-{what}/' + ('outermost' if n <= 1 else 'nested')
     return f'after-{what}/' + ('outermost' if n == 0 else 'nested')
 
-  def fail(self, case_id, loc, message, assert_src, keys):
-    self.failures.append(Failure(case_id, loc, message, assert_src, keys))
+  def fail(self, case_id, loc, message, assert_src, keys, heavy=False):
+    self.failures.append(Failure(case_id, loc, message, assert_src, keys, heavy))
+
+  def _matrix(self, p, k, path, slot, model, want):
+    """Evaluates the consumer matrix `p` and compares it consumer by consumer."""
+    ns = self.ns
+    self.checks += len(want)
+    try:
+      got = eval(p.matrix_src(model), ns)  # pylint: disable=eval-used
+    except BaseException as e:  # pylint: disable=broad-except
+      if _is_ours(e, ns):
+        raise
+      got = {}
+      err = f'{type(e).__name__}: {e}'
+    for name, w in want.items():
+      g = got.get(name, '<not evaluated>' if got else err)
+      if not same(g, w):
+        self.fail(f'{p.name}[{name}]/{self.phase(k)}', (path, slot),
+                  f'got {g!r}, want {w!r}', _assert_src(p.consumer_src(model, name), w), (k,),
+                  heavy=True)
 
   def probe(self, path, slot, model, skip_keys=(), leaf=False):
     ns = self.ns
@@ -894,8 +1408,16 @@ class Ctx:
           continue
         if p.expensive and slot not in (0, 'x', 'final'):
           continue
+        if p.heavy and not (
+            self.heavy is True
+            or (self.heavy == 'touched' and k in self.event and slot != 'final')
+            or (self.heavy == 'leaf' and leaf)):
+          continue
         want = p.expect(model)
         if want is SKIP:
+          continue
+        if p.heavy:
+          self._matrix(p, k, path, slot, model, want)
           continue
         src = _probe_src(p, model, k)
         self.checks += 1
@@ -1160,10 +1682,10 @@ def _reset_process_wide():
     pass
 
 
-def run_program(prog, all_behavioural=False):
+def run_program(prog, all_behavioural=False, heavy=False):
   """Runs `prog` on the *current* thread.  Returns (checks, [Failure])."""
   ns = namespace()
-  ctx = Ctx(ns, involved_keys(prog), all_behavioural)
+  ctx = Ctx(ns, involved_keys(prog), all_behavioural, heavy)
   cidx = _capture_index(prog)
   model = dict(INIT_MODEL)
   model['_tended'] = set()
@@ -1262,6 +1784,8 @@ def emit(prog, failure):
     if k in keys and p and p not in seen:
       seen.add(p)
       pre.append(p)
+  if failure.heavy:
+    pre.append(CONSUMERS)
   return ''.join(pre) + '\n'.join(lines) + '\n'
 
 
@@ -1273,8 +1797,8 @@ def witness(prog, failure):
           f'm.replay_program({prog!r}, {failure.case_id!r})\n')
 
 
-def replay_program(prog, case_id, all_behavioural=True):
-  _, fails = run_in_fresh_thread(run_program, prog, all_behavioural)
+def replay_program(prog, case_id, all_behavioural=True, heavy=True):
+  _, fails = run_in_fresh_thread(run_program, prog, all_behavioural, heavy)
   _reset_process_wide()
   for f in fails:
     if f.case_id == case_id:
@@ -1381,7 +1905,7 @@ def _mgr_names(prog):
   return out
 
 
-def _run_batch(rec, progs, all_behavioural=False, label=lambda tag: ''):
+def _run_batch(rec, progs, all_behavioural=False, label=lambda tag: '', heavy=False):
   """Runs (tag, prog) pairs on worker threads; a thread is abandoned after a failure."""
   progs = list(progs)
   i = 0
@@ -1393,7 +1917,7 @@ def _run_batch(rec, progs, all_behavioural=False, label=lambda tag: ''):
         solo = 'dynamic_evaluate_global' in _mgr_names(progs[j][1])
         if solo and j > start:
           return       # process-wide dynamic evaluation gets a thread of its own
-        c, f = run_program(progs[j][1], all_behavioural)
+        c, f = run_program(progs[j][1], all_behavioural, heavy)
         results.append((j, c, f))
         if f or solo:
           return
@@ -1598,6 +2122,104 @@ def drv_random_trees(tier, seed):
   return _finish(rec)
 
 
+def drv_setting_consumers(tier, seed):
+  """The operations documented to obey a scoped setting, tried under the scope."""
+  quick = tier == 'quick'
+  rec = Recorder(
+      'C17', 'every consumer of a scoped flag / format setting obeys the setting in scope',
+      scope=('consumer matrices (see the tables of the consumers prelude: Object / Functor / typed '
+             'Dict / typed List x construction, late value-spec binding, rebind, accessor writes, '
+             'list and dict mutators, from_json, clone/copy, str/repr; both object-level flag '
+             'values) of notify_on_change, enable_type_check, track_origin, '
+             'allow_writable_accessors, as_sealed, allow_partial, str_format, repr_format; code '
+             'kinds x evaluate / run / evaluate(permission=) of coding.permission, symbols and '
+             'assignments of evaluate / run under coding.context, the hyper primitive factories '
+             'under dynamic_evaluate; '
+             'evaluated in the innermost block of every scope of depth 1 and '
+             + ('9 seeded chains' if quick else 'every chain') + ' of depth 2, '
+             'and in the first slot of every block and after every exceptional exit of: '
+             + ('2 seeded scopes' if quick else 'every scope') + ' of depth 1 left by an Exception, '
+             + ('3 seeded chains of depth 2 with an Exception caught inside level 1 / raised after '
+                'the inner exit' if quick else 'all chains of depth 2 with all exit variants')
+             + ('' if quick else ', every chain of depth 3 (<=64 seeded per setting)')
+             + '; ordered pairs of different flag managers ('
+             + ('one seeded order and arg pair per manager pair' if quick else 'all arg pairs')
+             + ') with the matrices of both in the innermost block; 2 threads holding different '
+             'values of the same setting (every thread and a new thread after every enter event)'))
+  r = rng(seed, 'c17-consumers')
+  first, leafs, progs = [], [], []
+  def choices(k):
+    return [c for c in _choices({k}) if not MGRS[c[0]].args[c[1]].enter_raises
+            and not MGRS[c[0]].args[c[1]].exit_raises]
+  for k in HEAVY_KEYS:
+    ch = choices(k)
+    first.append((f'{k}/depth1/normal', _chain([ch[0]])))
+    for a in ch[1:]:
+      leafs.append((f'{k}/depth1/normal', _chain([a])))
+    for a in (ch if not quick else r.sample(ch, min(2, len(ch)))):
+      progs.append((f'{k}/depth1/exc-to-top', _chain([a], [('R', 'E')])))
+    pairs = list(itertools.product(ch, ch))
+    if quick and len(pairs) > 9:
+      pairs = r.sample(pairs, 9)
+    varied = pairs if not quick else r.sample(pairs, min(3, len(pairs)))
+    for seq in pairs:
+      for vname, prog in _chain_variants(list(seq)):
+        if vname == 'normal':
+          (leafs if quick else progs).append((f'{k}/depth2/{vname}', prog))
+        elif seq in varied and (not quick or vname in (
+            'caught-inside-level-1', 'exc-after-inner-exit')):
+          progs.append((f'{k}/depth2/{vname}', prog))
+    if not quick:
+      triples = list(itertools.product(ch, ch, ch))
+      for seq in (triples if len(triples) <= 64 else r.sample(triples, 64)):
+        for vname, prog in _chain_variants(list(seq)):
+          progs.append((f'{k}/depth3/{vname}', prog))
+  # (with the state before any scope and after the last one / in the innermost block / in
+  # every block and after every exceptional exit)
+  for batch, mode in ((first, True), (leafs, 'leaf'), (progs, 'touched')):
+    _run_batch(rec, [(t, p) for t, p in batch if valid_program(p)], heavy=mode)
+  # a scope of another flag manager around / inside: the consumers are not disturbed
+  flag_keys = ['notify', 'typecheck', 'origin', 'writable', 'sealed', 'partial', 'autocall']
+  cross = []
+  n = 0
+  flip = {frozenset(pr): r.randrange(2) for pr in itertools.combinations(flag_keys, 2)}
+  for k1 in flag_keys:
+    for k2 in flag_keys:
+      if k1 == k2 or (quick and (k1 < k2) == bool(flip[frozenset((k1, k2))])):
+        continue     # (quick: one seeded order per pair of managers)
+      c1, c2 = _choices({k1}), _choices({k2})
+      for a, b in ([(r.choice(c1), r.choice(c2))] if quick else itertools.product(c1, c2)):
+        n += 1
+        prog = _chain([a, b], [('R', 'E')] if n % 3 == 0 else [])
+        if valid_program(prog):
+          cross.append((f'{a[0]}>{b[0]}', prog))
+  _run_batch(rec, cross, heavy='leaf')
+  # threads
+  for k in HEAVY_KEYS:
+    ch = [c for c in choices(k) if not MGRS[c[0]].process_wide]
+    a, b = ch[0], ch[1]
+    for order in ([[0, 1, 1, 0]] if quick else list(_interleavings([2, 2]))):
+      tprogs = [[('W',) + a + ([],)], [('W',) + b + ([],)]]
+      assert _schedule_ok(tprogs), tprogs
+      try:
+        checks, fails = run_schedule(tprogs, order, heavy=True)
+      except BaseException as e:  # pylint: disable=broad-except
+        checks, fails = 0, [(f'schedule/harness-{type(e).__name__}', str(e))]
+      rec.cases += max(checks - 1, 0)
+      ids = {}
+      for cid, msg in fails:
+        ids.setdefault(cid, msg)
+      rec.case('schedule-without-findings', (k, tprogs, order), ok=not fails)
+      for cid, msg in ids.items():
+        rec.case(cid, (k, tprogs, order), ok=False, message=f'{msg} [consumers/{k}]',
+                 witness=('import bounded.c17_scopes as m\n'
+                          f'm.replay_schedule({tprogs!r}, {order!r}, {cid!r}, heavy=True)\n'))
+      if fails:
+        _reset_process_wide()
+  rec.fail.pop('schedule-without-findings', None)
+  return _finish(rec)
+
+
 # ===========================================================================
 # Threads: deterministic schedules of well-nested per-thread programs
 # ===========================================================================
@@ -1661,8 +2283,8 @@ class _Worker:
                   raise
             self.out.put(('ok', bool(swallowed)))
         elif cmd[0] == 'probe':
-          _, model, involved, skip = cmd
-          ctx = Ctx(ns, involved)
+          _, model, involved, skip, heavy = cmd
+          ctx = Ctx(ns, involved, heavy=heavy)
           ctx.probe((), 0, model, skip_keys=skip)
           self.out.put(('ok', (ctx.checks, ctx.failures)))
       except BaseException as e:  # pylint: disable=broad-except
@@ -1696,8 +2318,11 @@ def linearize(prog):
   return ev
 
 
-def run_schedule(progs, order):
+def run_schedule(progs, order, heavy=False):
   """progs: one program per thread; order: thread index per event.
+
+  heavy: also evaluate the consumer matrices of the involved keys (in every
+  thread and in a new thread) after every event that enters a scope.
 
   Returns (checks, [(case_id, message)])."""
   ns = namespace()
@@ -1716,19 +2341,26 @@ def run_schedule(progs, order):
   pos = [0] * len(progs)
   fails, checks = [], 0
 
+  wrong = {}        # thread -> probes that disagreed with its model after the previous event
+
   def probe_all(actor, what):
     nonlocal checks
     for t, w in enumerate(workers):
       skip = tuple(k for k, owner in pw_keys.items() if owner != t)
-      c, fs = w.call('probe', models[t][-1], involved, skip)
+      c, fs = w.call('probe', models[t][-1], involved, skip, heavy and what.startswith('entered'))
       checks += c
+      was = wrong.get(t, ())
+      wrong[t] = {f.case_id.split('/')[0] for f in fs}
       for f in fs:
-        tag = 'own-event' if t == actor else 'leak-from-other-thread'
-        fails.append((f'{f.case_id.split("/")[0]}/threads/{tag}',
+        base = f.case_id.split('/')[0]
+        # (a thread that was already wrong before the other thread's event is not a leak)
+        tag = 'own-event' if (t == actor or base in was) else 'leak-from-other-thread'
+        fails.append((f'{base}/threads/{tag}',
                       f'thread {t} after thread {actor} {what}: {f.message}'))
     fresh = _Worker(ns)
     try:
-      c, fs = fresh.call('probe', dict(INIT_MODEL), involved, tuple(pw_keys))
+      c, fs = fresh.call('probe', dict(INIT_MODEL), involved, tuple(pw_keys),
+                         heavy and what.startswith('entered'))
     finally:
       fresh.stop()
     checks += c
@@ -1767,8 +2399,8 @@ def run_schedule(progs, order):
   return checks, fails
 
 
-def replay_schedule(progs, order, case_id):
-  _, fails = run_schedule(progs, order)
+def replay_schedule(progs, order, case_id, heavy=False):
+  _, fails = run_schedule(progs, order, heavy)
   _reset_process_wide()
   for cid, msg in fails:
     if cid == case_id:
@@ -2362,4 +2994,4 @@ def drv_specials(tier, seed):
 
 
 DRIVERS = [drv_nesting_same_key, drv_in_block_actions, drv_nesting_cross_key, drv_random_trees,
-           drv_threads, drv_specials]
+           drv_threads, drv_setting_consumers, drv_specials]
